@@ -325,12 +325,14 @@ impl Assembler for IntervalAssembler {
         dynasm!(self.0.ops
             ; vaddps Rx(reg(out_reg)), Rx(reg(lhs_reg)), Rx(reg(rhs_reg))
         );
+        self.spread_nan(out_reg);
     }
     fn build_sub(&mut self, out_reg: u8, lhs_reg: u8, rhs_reg: u8) {
         dynasm!(self.0.ops
             ; vpshufd xmm1, Rx(reg(rhs_reg)), 0b11110001u8 as i8
             ; vsubps Rx(reg(out_reg)), Rx(reg(lhs_reg)), xmm1
         );
+        self.spread_nan(out_reg);
     }
     fn build_mul(&mut self, out_reg: u8, lhs_reg: u8, rhs_reg: u8) {
         extern "sysv64" fn interval_mul(
@@ -920,6 +922,24 @@ impl Assembler for IntervalAssembler {
 
 #[expect(clippy::useless_conversion)]
 impl IntervalAssembler {
+    /// Turns an interval with a single `NaN` bound into the `NaN` interval
+    ///
+    /// Adding or subtracting infinities can leave `NaN` in one bound only
+    /// (e.g. `[1, inf] - [inf, inf]`).  The interpreter returns the `NaN`
+    /// interval in that case, and the out-of-line operations assert that an
+    /// interval has either no `NaN` bound or two.
+    fn spread_nan(&mut self, out_reg: u8) {
+        dynasm!(self.0.ops
+            // xmm1 = all ones in each lane of `out` that is NaN
+            ; vcmpunordps xmm1, Rx(reg(out_reg)), Rx(reg(out_reg))
+            // xmm2 = the same mask with the two bounds exchanged
+            ; vpshufd xmm2, xmm1, 0b11100001u8 as i8
+            ; vorps xmm1, xmm1, xmm2
+            // All ones is a NaN, so this leaves ordinary intervals alone
+            ; vorps Rx(reg(out_reg)), Rx(reg(out_reg)), xmm1
+        );
+    }
+
     fn ensure_callee_regs_saved(&mut self) {
         // Back up a few callee-saved registers that we're about to use
         if !self.0.saved_callee_regs {
